@@ -102,6 +102,7 @@ func (fr *frame) trackedCall(v ssa.Value, callee *ssa.Function, args, binds []Va
 			k := u.regKey(fmt.Sprintf("Arg.%s.%d.%s", name, i, sortTag(srt)), srt)
 			u.argKeyType[k] = a.typ
 			fr.st.set(k, t)
+			fr.snapshotBytes(name, i, a, t)
 		}()
 	}
 	res := fr.callFunction2(v, callee, args, binds, pos)
@@ -539,7 +540,8 @@ func (fr *frame) havocAllMark(why, mark string) {
 			keep[k] = fr.st.get(u, k)
 		}
 	}
-	fr.st = &state{over: map[string]string{}, base: &entryProv{tag: fr.tag(fmt.Sprintf("hv%d", u.nfresh)), cache: map[string]string{}}, ws: ws, u: u}
+	prevSt := fr.st
+	fr.st = &state{over: map[string]string{}, base: &hvProv{prev: prevSt, inner: &entryProv{tag: fr.tag(fmt.Sprintf("hv%d", u.nfresh)), cache: map[string]string{}}}, ws: ws, u: u}
 	u.nfresh++
 	na := fr.st.get(u, allocKey)
 	u.assert("(>= " + na + " " + alloc + ")")
@@ -622,6 +624,26 @@ func (fr *frame) invokeCallVals(v ssa.Value, c *ssa.CallCommon, recv Val, rest [
 	}
 	ck := u.regKey("Calls."+name, "Int")
 	fr.st.set(ck, "(+ "+fr.st.get(u, ck)+" 1)")
+	for i, a := range rest {
+		if a.typ == nil {
+			continue
+		}
+		func() {
+			defer func() {
+				if r := recover(); r != nil {
+					if _, ok := r.(unsupported); !ok {
+						panic(r)
+					}
+				}
+			}()
+			t := fr.term(a)
+			srt := u.sortOf(a.typ)
+			k := u.regKey(fmt.Sprintf("Arg.%s.%d.%s", name, i+1, sortTag(srt)), srt)
+			u.argKeyType[k] = a.typ
+			fr.st.set(k, t)
+			fr.snapshotBytes(name, i+1, a, t)
+		}()
+	}
 	res := fr.invokeCallVals2(v, c, recv, rest)
 	sig := c.Method.Type().(*types.Signature)
 	if sig.Results().Len() > 0 {
@@ -727,6 +749,16 @@ func (fr *frame) contractCallSig(v ssa.Value, ct *Contract, sig *types.Signature
 			}
 		}
 		u.note("%s: 'invokes %s' could not be resolved to a closure at this call", name, ct.Invokes)
+	}
+	if ct.Iterates != "" {
+		// schema contract: the callee calls its function argument any number of times; what the
+		// callback assigns among its captured variables is havoc'd (like a goroutine's captures)
+		for i, nm := range names {
+			if nm == ct.Iterates && i < len(args) && args[i].fn != nil {
+				fr.havocCaptures(args[i])
+				u.note("%s modelled as: calls its argument %s any number of times; the variables the callback writes are havoc'd, its other effects are those of its contract (assumed schema contract)", name, nm)
+			}
+		}
 	}
 	if !ct.HasMod {
 		fr.havocAll("call to " + name + " (contract without modifies clause)")
@@ -964,4 +996,19 @@ func (fr *frame) intrinsic(v ssa.Value, callee *ssa.Function, args []Val, pos ss
 		return Val{t: "(fp.isNaN " + fr.term(args[0]) + ")", typ: types.Typ[types.Bool]}, true
 	}
 	return Val{}, false
+}
+
+// snapshotBytes records the content of a []byte argument at call time (ghost: lastbytes(Name, i))
+func (fr *frame) snapshotBytes(name string, i int, a Val, t string) {
+	u := fr.u
+	sl, ok := a.typ.Underlying().(*types.Slice)
+	if !ok {
+		return
+	}
+	if b, ok := sl.Elem().Underlying().(*types.Basic); !ok || b.Kind() != types.Uint8 {
+		return
+	}
+	k := u.regKey(fmt.Sprintf("Arg.%s.%d.bytes", name, i), "Str")
+	arr := fmt.Sprintf("(select %s (s_ref %s))", fr.st.get(u, u.keyM(sl.Elem())), t)
+	fr.st.set(k, fmt.Sprintf("(mk-str %s (s_len %s))", u.shift(arr, "(s_off "+t+")"), t))
 }
